@@ -1,5 +1,7 @@
 import Netpoll.Server
 import Netpoll.ServerSpec
+import Netpoll.ServerRetry
+import Netpoll.Gen.Server
 /-! Line-protocol driver for the server model (C13).
 
 `npdriver srv` reads the op lines written by go/inpkg/srvh.go (mode sweep) on stdin and replays them on
@@ -308,6 +310,27 @@ def parseEmf (line : String) : EmfObs :=
   { served1 := look m "ep1_served", served2 := look m "ep2_served", fresh1 := lookN m "ep1_fresh",
     fresh2 := lookN m "ep2_fresh", sh := look m "sh" }
 
+def parseStretch (line : String) : StretchObs :=
+  let m := kv line
+  { k := lookN m "k", crashed := lookN m "crashed", queued := lookN m "queued", served := lookN m "served", fresh := lookN m "fresh" }
+
+/-- the back-off goroutine of the IMPLEMENTATION against `Netpoll.Server.Retry` on the same script (`k-1` failed
+    retries, then a success): the gap in front of its j-th accept is at least the model's delay (a sleep may take
+    longer, never shorter), and it made exactly the accepts the model makes up to the first success.
+    `gaps` = milliseconds between consecutive `Accept` calls, the first one (OnRead's) excluded. -/
+def stretchModelDiff (line : String) : Option String :=
+  let m := kv line
+  let k := lookN m "k"
+  let gaps := ((look m "gaps").splitOn ",").filterMap fun x => x.toNat?
+  let script := List.replicate (k - 1) AccRes.emfile ++ [AccRes.conn 0]
+  let want := Retry.delays .succLt Netpoll.Gen.Server.server_OnRead_retryTable 0 script
+  if lookN m "crashed" != 0 then none
+  else if gaps.length < want.length then some s!"goroutine made {gaps.length} accepts up to the first success, model {want.length}"
+  else
+    match ((gaps.zip want).zipIdx).find? (fun ((g, d), _) => g + 1 < d) with   -- 1 ms: the harness truncates
+    | some ((g, d), j) => some s!"retry {j}: implementation slept {g} ms, model {d} ms"
+    | none => none
+
 def verdict (fails : List String) : String :=
   if fails.isEmpty then "OK" else "IMPL-SPEC-FAIL " ++ ",".intercalate fails
 
@@ -318,6 +341,12 @@ def judge (nilSeen : Bool) (op impl : String) : String × Bool :=
   | some "scn" => ("OK", false)
   | some "obs" => (verdict (realFails (parseReal op)), false)
   | some "emf" => (verdict (emfFails (parseEmf op)), false)
+  | some "stretch" =>
+    let fails := stretchFails (parseStretch op)
+    if !fails.isEmpty then (verdict fails, false)
+    else match stretchModelDiff op with
+      | some d => ("IMPL-MODEL-DIFF " ++ d, false)
+      | none => ("OK", false)
   | some "census" =>
     let m := kv op
     (if lookN m "socks_after" ≤ lookN m "socks_before" then "OK" else "IMPL-SPEC-FAIL descriptors-leaked-over-the-run", false)
